@@ -122,7 +122,7 @@ fn aspect_of_difference(p: &Resp, f: &Resp) -> String {
         let (pb, fb) = (p.body_text(), f.body_text());
         let pl: Vec<&str> = pb.lines().collect();
         let fl: Vec<&str> = fb.lines().collect();
-        for tag in ["M ", "P ", "Q ", "H ", "G ", "X ", "B ", "A ", "C "] {
+        for tag in ["M ", "P ", "I ", "Q ", "H ", "G ", "X ", "B ", "A ", "C "] {
             let a: Vec<&&str> = pl.iter().filter(|l| l.starts_with(tag)).collect();
             let b: Vec<&&str> = fl.iter().filter(|l| l.starts_with(tag)).collect();
             if a != b {
